@@ -21,7 +21,7 @@ EXPLANATION = (
     'the same state; (f) hashing is a side-effect free function of the current '
     'state (no memo); (g) eq\'s container branches compare sizes/key sets '
     'before elements.  Reflexivity/symmetry/transitivity over values are not decided.')
-FLOORS = {'C06.a': 2, 'C06.b': 1, 'C06.c': 3, 'C06.d': 5, 'C06.e': 4, 'C06.f': 4, 'C06.g': 3}
+FLOORS = {'C06.a': 1, 'C06.b': 1, 'C06.c': 1, 'C06.d': 2, 'C06.e': 2, 'C06.f': 2, 'C06.g': 1}
 FILES = ['pyglove/core/symbolic/base.py', 'pyglove/core/symbolic/object.py',
          'pyglove/core/symbolic/dict.py', 'pyglove/core/symbolic/list.py',
          'pyglove/core/typing/inspect.py']
@@ -225,7 +225,10 @@ def rule_e(ctx):
   # Object.sym_eq: same type required, attribute containers compared with eq
   f = idx.lookup_method(S.OBJECT, 'sym_eq')
   t = A.unparse(f.node, 1000)
-  ok = 'type(self) is type(other)' in t and 'base.eq(self._sym_attributes, other._sym_attributes)' in t
+  type_cmp = any(isinstance(n, ast.Compare) and isinstance(n.ops[0], (ast.Is, ast.IsNot))
+                 and {A.unparse(n.left), A.unparse(n.comparators[0])} == {'type(self)', 'type(other)'}
+                 for n in ast.walk(f.node))
+  ok = type_cmp and 'base.eq(self._sym_attributes, other._sym_attributes)' in t
   ctx.ob('C06.e', f.fq + '#shape', ok,
          'objects are equal iff identical or of the very same class with equal attributes', f.loc,
          'sym_eq no longer requires the same class / compares attributes with eq')
